@@ -41,7 +41,9 @@ MENU = ['role:admin', 'role:member', 'rule:svc:base', 'rule:nope',
         'roles:Admin', 'roles:admin', 'user.name:user',
         'project.domain.id:d0', 'methods:password',
         # a literal outside the Basic Multilingual Plane against the target
-        "'\U0001f680-\u00e9':%(label)s"]
+        "'\U0001f680-\u00e9':%(label)s",
+        # the text None against a target value (a null leaf prints as None)
+        'None:%(label)s', "'None':%(target.project.id)s"]
 DEFAULTS = [None, '!', 'role:admin']
 BOUNDS = {'quick': dict(menu2=8), 'thorough': dict(menu2=len(MENU))}
 
@@ -84,6 +86,9 @@ TARGETS = {
     # values JSON writes with \u escapes (surrogate pairs included)
     'astral': {'label': '\U0001f680-\u00e9', 'project_id': 'p1',
                'user_id': 'u1'},
+    # a JSON null leaf (top level and nested): it is a value like any other
+    'nullleaf': {'label': None, 'target': {'project': {'id': None}},
+                 'project_id': 'p1'},
 }
 REQUESTS = [None, 'svc:get', 'svc:nope', 'plain']
 
